@@ -177,6 +177,67 @@ def variant_source(kind, source):
                                 continue
                         i += 1
         return ast.unparse(ast.fix_missing_locations(tree))
+    if kind == "extract":
+        # the first-evaluated nested call of a simple statement is pulled into a fresh local placed just before it
+        counter = [0]
+
+        def first_call(st):
+            """(parent, field, index, node) of the first call evaluated in st that is nested inside another expression."""
+            res = []
+
+            def rec(n, parent, field, idx, depth, ok):
+                if res:
+                    return
+                if isinstance(n, (ast.Lambda, ast.ListComp, ast.SetComp, ast.DictComp, ast.GeneratorExp, ast.BoolOp, ast.IfExp, ast.JoinedStr, ast.Starred, ast.Await, ast.NamedExpr)):
+                    res.append(None)  # conditional / deferred evaluation first: leave the statement alone
+                    return
+                for f, v in ast.iter_fields(n):
+                    if isinstance(v, list):
+                        for i, x in enumerate(v):
+                            if isinstance(x, ast.AST):
+                                rec(x, n, f, i, depth + 1, ok)
+                                if res:
+                                    return
+                    elif isinstance(v, ast.AST):
+                        rec(v, n, f, None, depth + 1, ok)
+                        if res:
+                            return
+                if isinstance(n, ast.Call):
+                    res.append((parent, field, idx, n) if depth >= 2 and isinstance(parent, (ast.Call, ast.BinOp, ast.Subscript, ast.Attribute, ast.Compare, ast.UnaryOp, ast.keyword, ast.Tuple)) else None)
+
+            root = st.value if isinstance(st, (ast.Assign, ast.Expr, ast.Return, ast.AugAssign)) else None
+            if root is None:
+                return None
+            rec(root, st, "value", None, 1, True)
+            return res[0] if res else None
+
+        def fix(stmts):
+            out = []
+            for st in stmts:
+                for f in ("body", "orelse", "finalbody"):
+                    v = getattr(st, f, None)
+                    if isinstance(v, list) and v and isinstance(v[0], ast.stmt):
+                        setattr(st, f, fix(v))
+                for h in getattr(st, "handlers", []) or []:
+                    h.body = fix(h.body)
+                if isinstance(st, (ast.Assign, ast.Expr, ast.Return, ast.AugAssign)) and not (isinstance(st, ast.Assign) and any(not isinstance(t, (ast.Name, ast.Attribute)) for t in st.targets)):
+                    fc = first_call(st)
+                    if fc:
+                        parent, field, idx, node = fc
+                        counter[0] += 1
+                        nm = f"_xt{counter[0]}"
+                        new = ast.Name(id=nm, ctx=ast.Load())
+                        if idx is None:
+                            setattr(parent, field, new)
+                        else:
+                            getattr(parent, field)[idx] = new
+                        out.append(ast.Assign(targets=[ast.Name(id=nm, ctx=ast.Store())], value=node))
+                out.append(st)
+            return out
+
+        for fn in [n for n in ast.walk(tree) if isinstance(n, ast.FunctionDef)]:
+            fn.body = fix(fn.body)
+        return ast.unparse(ast.fix_missing_locations(tree))
     if kind == "numpy":
         has = any(isinstance(n, ast.Import) and any(a.name == "numpy" and a.asname == "np" for a in n.names) for n in ast.walk(tree))
         if not has:
